@@ -64,6 +64,8 @@ def wrap(u, v):
 
 def ev(e, defined=()):
     k = e[0]
+    if k == "val":
+        return e[1]
     if k == "lit":
         return lit(e[1])
     if k == "chr":
@@ -322,5 +324,130 @@ class BigLiteral(IfArith):
         return r
 
 
-TARGETS = {"codebasin.preprocessor:ExpressionEvaluator.evaluate": IfArith(),
+# ---- the operator functions themselves, on (type, value) operands ---------------------------------
+import re       # noqa: E402
+
+import numpy as np      # noqa: E402
+
+SIGNED = [0, 1, 2, 3, 7, 63, 64, -1, -2, -7, -64, IMIN, IMIN + 1, IMAX, IMAX - 1, 1 << 31, -(1 << 31), 1 << 62]
+UNSIGNED = [0, 1, 2, 3, 7, 63, 64, 65, 1 << 31, 1 << 32, 1 << 62, 1 << 63, IMAX, M - 1, M - 2, M - 64]
+OPNAME = {"lor": "||", "land": "&&", "or": "|", "xor": "^", "and": "&", "eq": "==", "ne": "!=", "lt": "<", "le": "<=", "gt": ">",
+          "ge": ">=", "shl": "<<", "shr": ">>", "add": "+", "sub": "-", "mul": "*", "div": "/", "rem": "%",
+          "neg": "-", "pos": "+", "not": "!", "compl": "~"}
+_NP = re.compile(r"\(mk_tk_NpInt (true|false) (\(- (\d+)\)|(\d+))\)")
+
+
+def _np_of(pair):
+    return np.uint64(pair[1]) if pair[0] else np.int64(pair[1])
+
+
+def _pair_of(x):
+    return (isinstance(x, np.uint64), int(x))
+
+
+def model_pair(model, name):
+    """the (unsigned?, value) operand the solver's model assigns to parameter `name`"""
+    for k, v in model.items():
+        if k.split("!")[0] == name:
+            m = _NP.fullmatch(v.strip())
+            if m:
+                return (m.group(1) == "true", -int(m.group(3)) if m.group(3) else int(m.group(4)))
+    return None
+
+
+class Operators:
+    """__apply_binary_op / __apply_unary_op / __wrap against the reference on boundary operands of both types;
+    the precondition is the contract's (defined in C; implementation-defined negative >> excluded)"""
+    proved = True
+
+    def __init__(self, which):
+        self.which = which
+        self.fn = getattr(preprocessor.ExpressionEvaluator, "_ExpressionEvaluator__" + which)
+
+    def bound(self, tier):
+        return (f"{len(SIGNED)} signed x {len(UNSIGNED)} unsigned boundary operands (all type combinations), every operator"
+                if self.which != "wrap" else "boundary values around 0, 2**63, 2**64 and their negatives, both types")
+
+    def inputs(self, tier, seed):
+        ops = [(u, v) for u, vs in ((False, SIGNED), (True, UNSIGNED)) for v in vs]
+        if self.which == "apply_binary_op":
+            for op in BINOPS:
+                for a in ops:
+                    for b in ops:
+                        yield {"op": op, "l": a, "r": b}
+        elif self.which == "apply_unary_op":
+            for op in "+-!~":
+                for a in ops:
+                    yield {"op": op, "l": a}
+        else:
+            for v in [0, 1, -1, IMAX, IMAX + 1, IMIN, IMIN - 1, M - 1, M, M + 1, -M, -M - 1, 3 * M + 5, -3 * M - 5, 1 << 127]:
+                for u in (False, True):
+                    yield {"value": v, "unsigned": u}
+
+    def nontrivial(self, inp):
+        return True
+
+    def from_model(self, unit, model):
+        name = unit.split("#")[1] if "#" in unit else None
+        if self.which == "wrap":
+            v = next((x for k, x in model.items() if k.split("!")[0] == "value"), None)
+            u = next((x for k, x in model.items() if k.split("!")[0] == "unsigned"), None)
+            if v is None or u is None:
+                return None
+            m = re.fullmatch(r"\(- (\d+)\)|(\d+)", v.strip())
+            return {"value": -int(m.group(1)) if m.group(1) else int(m.group(2)), "unsigned": u.strip() == "true"}
+        if name not in OPNAME:
+            return None
+        if self.which == "apply_binary_op":
+            l, r = model_pair(model, "lhs"), model_pair(model, "rhs")
+            return None if l is None or r is None else {"op": OPNAME[name], "l": l, "r": r}
+        o = model_pair(model, "operand")
+        return None if o is None else {"op": OPNAME[name], "l": o}
+
+    def check(self, inp):
+        if self.which == "wrap":
+            v, u = inp["value"], inp["unsigned"]
+            want = (u, v % M if u else ((v % M) - M if (v % M) > IMAX else v % M))
+            call = lambda: self.fn(v, u)        # noqa: E731
+            kl = "wrap"
+        elif self.which == "apply_binary_op":
+            l, r = tuple(inp["l"]), tuple(inp["r"])
+            if inp["op"] == ">>" and not l[0] and l[1] < 0:
+                return None                     # implementation-defined in C: outside the contract
+            try:
+                want = ev(("bin", inp["op"], ("val", l), ("val", r)))
+            except UB:
+                return None
+            call = lambda: self.fn(inp["op"], _np_of(l), _np_of(r))     # noqa: E731
+            kl = "operator:" + inp["op"]
+        else:
+            l = tuple(inp["l"])
+            try:
+                want = ev(("un", inp["op"], ("val", l)))
+            except UB:
+                return None
+            call = lambda: self.fn(inp["op"], _np_of(l))     # noqa: E731
+            kl = "operator:unary" + inp["op"]
+        try:
+            got = call()
+        except BaseException as e:      # noqa: BLE001
+            return {"expected": str(want), "observed": f"raised {type(e).__name__}: {e}", "klass": kl + ":raises"}
+        if not isinstance(got, (np.int64, np.uint64)):
+            return {"expected": str(want), "observed": f"a {type(got).__name__}: {got!r}", "klass": kl + ":type"}
+        if _pair_of(got) != (bool(want[0]), want[1]):
+            return {"expected": f"(unsigned={want[0]}, {want[1]})", "observed": f"(unsigned={_pair_of(got)[0]}, {_pair_of(got)[1]})",
+                    "klass": kl + ":value"}
+        return None
+
+    def encode(self, inp):
+        return {k: (list(v) if isinstance(v, tuple) else v) for k, v in inp.items()}
+
+    def decode(self, j):
+        return j
+
+
+TARGETS = {"codebasin.preprocessor:ExpressionEvaluator.__apply_binary_op": Operators("apply_binary_op"),
+           "codebasin.preprocessor:ExpressionEvaluator.__apply_unary_op": Operators("apply_unary_op"),
+           "codebasin.preprocessor:ExpressionEvaluator.__wrap": Operators("wrap"),
+           "codebasin.preprocessor:ExpressionEvaluator.evaluate": IfArith(),
            "codebasin.preprocessor:ExpressionEvaluator.term#recorded-findings": BigLiteral()}
